@@ -66,7 +66,7 @@ for p in props:
         na.append({"property_id": pid, "reason": NOT_YET.get(pid, "check not built yet in this revision of /verif (runtime monitoring applies; see DESIGN.md section 4)")})
 m = {
     "version": 1,
-    "setup_cmd": "/venv/bin/python -m j2mverif.deps",
+    "setup_cmd": "PYTHONPATH=/repo:/verif:/verif/stubs /venv/bin/python -m j2mverif.selfcheck",
     "hooks": {"guard": "J2M_VERIF", "enable": "no source hooks in /repo: monitors attach from /verif (wrappers, sys.monitoring, audit hook via PYTHONPATH sitecustomize); J2M_VERIF=1 is set by bin/check for its children",
               "baseline_off_cmd": "cd /repo && /venv/bin/python -m pytest -ra -q -p no:cacheprovider --timeout=900 --continue-on-collection-errors",
               "source_commits": [], "add_only": True},
